@@ -1278,3 +1278,23 @@ package ast
 //@   modifies @clonefx, fresh KnowledgeBase.*, fresh map[string]*RuleEntry
 //@   ensures err == nil ==> fresh(c) && !$blue[c] && c.Name == e.Name && c.Version == e.Version
 //@   ensures err == nil ==> (forall k string :: has(c.RuleEntries, k) == has(e.RuleEntries, k)) && (forall k string :: has(e.RuleEntries, k) ==> c.RuleEntries[k] == imageOf(cloneTable, e.RuleEntries[k].AstID))
+
+// =========================================================================================================
+// C07: nodes are shared exactly when their snapshots are equal (Add*, above), so every snapshot must be injective up to
+// meaning. Constant.GetSnapshot: the format is pinned by the contract, and the scalar pieces must be injective on the
+// value they print (lemma over T-FMT's per-verb injectivity facts) and self-delimiting.
+// =========================================================================================================
+//@ extern pure func kind_name(k int) string
+// the piece that prints the constant's value (the kind name precedes it, so pieces of different kinds never meet)
+//@ pure func constPiece(v RV) string { return ite(v.kind == 24, fmt_q_GoStr(v.s), ite(2 <= v.kind && v.kind <= 6, fmt_d_int(v.bits), ite(7 <= v.kind && v.kind <= 11, fmt_d_uint(v.bits),
+//@      ite(v.kind == 13 || v.kind == 14, fmt_g_F64(v.f), ite(v.kind == 1, fmt_v_Bool(v.b), ""))))) }
+//@ func (e *Constant) GetSnapshot() (s)
+//@   serves C07
+//@   ints bv
+//@   requires e != nil
+//@   nopanic
+//@   ensures[C07] format: s == "C(" + kind_name(e.Value.kind) + "->" + constPiece(e.Value) + ")"
+// two constants of the same kind with the same printed piece have the same value: digits beyond the 6th decimal, quotes and
+// brackets inside strings, sign and exponent all reach the snapshot
+//@ lemma[C07] const_piece_injective: forall a RV, b RV :: a.kind == b.kind && constPiece(a) == constPiece(b) && !isNaN(a.f) && !isNaN(b.f)
+//@        ==> (a.kind == 24 ==> a.s == b.s) && ((2 <= a.kind && a.kind <= 11) ==> a.bits == b.bits) && ((a.kind == 13 || a.kind == 14) ==> a.f == b.f) && (a.kind == 1 ==> a.b == b.b)
